@@ -22,7 +22,7 @@ FILES = {
     "service/cipher_list.go": ["C01", "C03", "C19", "C09"],
     "service/replay.go": ["C07", "C19", "C06", "C15"],
     "service/server_salt.go": ["C08", "C06", "C15"],
-    "service/shadowsocks.go": ["C09", "C11", "C15", "C16"],
+    "service/shadowsocks.go": ["C14", "C09", "C11", "C15", "C16"],
     "prometheus/metrics.go": ["C17", "C20", "C15", "C16", "C19"],
     "ipinfo/ipinfo.go": ["C20"],
     "net/private_net.go": ["C05"],
